@@ -283,6 +283,8 @@ class Executor:
         cache = self.ctx.__dict__.setdefault('_const_cache', {})
         if key in cache:
             return cache[key]
+        if st is None:
+            st = State(self.ctx)
         saved, saved_opq = self.frames, self.ctx.opaque_ok
         self.frames = saved + [Frame(mod, None, None, mod.name)]
         self.ctx.opaque_ok = False
@@ -305,10 +307,12 @@ class Executor:
                                             for x in r.py):
                     v = r
         if v is None:
-            e = self.ctx.opaque_const('const:' + key)
-            self.ctx.assumptions.add(f'import-time constant {key} is an opaque object (not None)')
-            v = V('ref', Val.oid(e), path=path)
-            # stable identity below the fresh range
+            # a distinct, stable object identity per constant (reserved range just below the fresh range)
+            ids = self.ctx.__dict__.setdefault('_const_ids', {})
+            if key not in ids:
+                ids[key] = FRESH_BASE - 1 - len(ids)
+            self.ctx.assumptions.add(f'import-time constant {key} is an opaque object (not None, distinct from other constants)')
+            v = V('ref', z3.IntVal(ids[key]), path=path)
         cache[key] = v
         return v
 
@@ -927,13 +931,13 @@ class Executor:
         name = f'loop{ordn}'
         outs = []
         if spec is not None and spec.inv is not None:
-            env0 = {'_entry': st}
+            env0 = {'_entry': st, '_phase': 'entry'}
             self.oblige(st, f'{name}.inv_entry', spec.inv(self, st, env0), kind='loop', info={'line': node.lineno})
         # arbitrary iteration
         h = st.fork()
         self.havoc_loop_state(node, h, spec)
         h.mark((node.lineno, 'loophead'))
-        env = {'_entry': st}
+        env = {'_entry': st, '_phase': 'assume'}
         if spec is not None and spec.inv is not None:
             h.assume(spec.inv(self, h, env))
         var0 = spec.variant(self, h, env) if spec is not None and spec.variant is not None else None
@@ -955,7 +959,7 @@ class Executor:
                 if sig is None or sig[0] == 'cnt':
                     self.check_kind_stability(node, s2, name)
                     if spec is not None and spec.inv is not None:
-                        self.oblige(s2, f'{name}.inv_preserved', spec.inv(self, s2, dict(env)), kind='loop',
+                        self.oblige(s2, f'{name}.inv_preserved', spec.inv(self, s2, dict(env, _phase='preserve')), kind='loop',
                                     info={'line': node.lineno})
                     if var0 is not None:
                         var1 = spec.variant(self, s2, dict(env))
@@ -1014,7 +1018,7 @@ class Executor:
         outs = []
         seq_info = models.iter_seq(self, st, it)   # (seq term | None, length term | None, elem_fn)
         if spec is not None and spec.inv is not None:
-            env0 = {'_k': z3.IntVal(0), '_seq': seq_info[0], '_n': seq_info[1], '_entry': st}
+            env0 = {'_k': z3.IntVal(0), '_seq': seq_info[0], '_n': seq_info[1], '_entry': st, '_phase': 'entry'}
             self.oblige(st, f'{name}.inv_entry', spec.inv(self, st, env0), kind='loop', info={'line': node.lineno})
         h = st.fork()
         self.havoc_loop_state(node, h, spec)
@@ -1025,7 +1029,7 @@ class Executor:
         if n is None:
             n = fresh(IntS, '_n')
         h.assume(n >= 0)
-        env = {'_k': k, '_seq': seq_info[0], '_n': n, '_entry': st}
+        env = {'_k': k, '_seq': seq_info[0], '_n': n, '_entry': st, '_phase': 'assume'}
         if spec is not None and spec.inv is not None:
             h.assume(spec.inv(self, h, env))
         # exit: all items consumed
@@ -1045,7 +1049,7 @@ class Executor:
                     if sig is None or sig[0] == 'cnt':
                         self.check_kind_stability(node, s2, name)
                         if spec is not None and spec.inv is not None:
-                            env2 = {'_k': k + 1, '_seq': seq_info[0], '_n': n, '_entry': st}
+                            env2 = {'_k': k + 1, '_seq': seq_info[0], '_n': n, '_entry': st, '_phase': 'preserve'}
                             self.oblige(s2, f'{name}.inv_preserved', spec.inv(self, s2, env2), kind='loop',
                                         info={'line': node.lineno})
                     elif sig[0] == 'brk':
